@@ -2,7 +2,7 @@
 From Coq Require Import ZArith.
 From Clikit Require Import Base.Prelude Base.Res Base.Term Model.Conv Model.Markup Model.Section Model.Progress Proofs.ProgressLemmas.
 Local Open Scope Z_scope.
-Theorem new_bar_in_range : forall ansi quiet sec w f st v mx bw mn md xn xd rf cu msg now,
-  range (pb_new ansi quiet sec w f st v mx bw mn md xn xd rf cu msg now).
+Theorem new_bar_in_range : forall ansi quiet sec w f st v mx bw mn md xn xd rf pc cu msg now,
+  range (pb_new ansi quiet sec w f st v mx bw mn md xn xd rf pc cu msg now).
 Proof. exact new_range. Qed.
 Print Assumptions new_bar_in_range.
